@@ -231,6 +231,31 @@ class FlowRobust:
                     sets = [g.enc_set(i, b"") for i in ids]
                     toks += [hx(sender), hx(g.enc_msg(sets))]
                 out.append(cmd + " " + " ".join(toks))
+        # template records with field count 0 (what RFC 7011 8.1 calls a withdrawal; "all templates" is id 2 in set 2, id 3 in set 3;
+        # NetFlow v9 has no such thing, the records are the same octets), alone, followed by a real template record in the same set,
+        # sent by exporters known by a 4-octet and by a 16-octet address while templates of BOTH kinds of exporter are cached
+        for p in ("ipfix", "nf9"):
+            g, cmd = gens[p], "ipfixh" if p == "ipfix" else "nf9h"
+            for rep in range(6 if tier == "quick" else 60):
+                a4 = bytes([rng.choice([10, 192, 198]), rng.randrange(256), rng.randrange(256), rng.randrange(1, 255)])
+                a16 = rng.choice([bytes([0x20, 0x01, 0x0d, 0xb8]) + bytes(rng.randrange(256) for _ in range(12)), bytes(10) + b"\xff\xff" + a4])
+                tk, ok_ = g.rand_tpl(tid=256, allow_var=False, opts=False, nfields=3)
+                toks = []
+                for a in (a4, a16):
+                    toks += [hx(a), hx(g.enc_msg([g.enc_set(g.tpl_set_id(False), g.enc_tpl(tk, False))])), hx(a), hx(g.enc_msg([g.enc_set(256, g.rand_record(tk)[0])]))]
+                who = [a16, a4] if rep % 2 == 0 else [a4, a16]
+                for a in who:
+                    opts = rng.random() < 0.4
+                    sid = g.tpl_set_id(opts)
+                    wid = rng.choice([sid, sid, 256, 2, 3, 0, 1, 255])
+                    wrec = struct.pack(">HH", wid, 0) + (b"" if not opts or rng.random() < 0.5 else b"\0\0")
+                    t2, _ = g.rand_tpl(tid=257, allow_var=False, opts=opts, nfields=rng.choice([2, 4]))
+                    follow = rng.choice([b"", g.enc_tpl(t2, opts), g.enc_tpl(t2, opts), bytes(rng.choice([1, 2, 5, 8]))])
+                    toks += [hx(a), hx(g.enc_msg([g.enc_set(sid, wrec + follow)]))]
+                    toks += [hx(a), hx(g.enc_msg([g.enc_set(257, bytes(rng.randrange(256) for _ in range(24))), g.enc_set(256, g.rand_record(tk)[0])]))]
+                for a in (a4, a16):
+                    toks += [hx(a), hx(g.enc_msg([g.enc_set(256, g.rand_record(tk)[0])]))]
+                out.append(cmd + " " + " ".join(toks))
         # records of ONE octet (the most records a datagram can hold): data for X before X is known, then X announced with a single
         # 1-octet field, then as much data for X as fits - in one message and in two; whatever is done twice shows in the count
         for p in ("ipfix", "nf9"):
